@@ -294,6 +294,18 @@ func genC22(seed uint64, tier string) *Scenario {
 		}
 		s.RPCs = append(s.RPCs, rpc)
 	}
+	// a dead connection that the reader never notices (blackhole, half-close)
+	// leaves the client's transparent-retry loop spinning until the deadline;
+	// the runtime charges such a spinner at most ~17 virtual seconds per 50 000
+	// scheduling points, so hour-long deadlines would cost minutes of CPU and
+	// gigabytes (no GC inside a run)
+	for _, f := range s.Faults {
+		if f.Kind == "blackhole" || f.Kind == "half_close" {
+			for i := range s.RPCs {
+				s.RPCs[i].DeadlineNs = min(s.RPCs[i].DeadlineNs, 120e9)
+			}
+		}
+	}
 	if block == 3 {
 		k := core.Pick(r, "dial_hang", "dial_fail")
 		for d := 0; d < r.Range(1, 4); d++ {
